@@ -740,7 +740,41 @@ class ExprMixin:
         return self.comprehension(node, env, "set")
 
     def e_DictComp(self, node, env):
+        r = self.arrdict_filter_comp(node, env)
+        if r is not None:
+            return r
         return self.comprehension(node, env, "dict")
+
+    def arrdict_filter_comp(self, node, env):
+        """{k: v for k, v in D.items() if c1 if c2 ...} over an opaque-key mapping D (two arrays): exactly the entries of D whose
+        (key, value) satisfy every condition.  Only when D is a pure name/attribute chain and the conditions evaluate without forking."""
+        from .symex import Env
+        if len(node.generators) != 1:
+            return None
+        g = node.generators[0]
+        it, tgt = g.iter, g.target
+        if not (isinstance(it, ast.Call) and isinstance(it.func, ast.Attribute) and it.func.attr == "items" and not it.args and not it.keywords):
+            return None
+        src = it.func.value
+        while isinstance(src, ast.Attribute):
+            src = src.value
+        if not isinstance(src, ast.Name):
+            return None
+        if not (isinstance(tgt, ast.Tuple) and len(tgt.elts) == 2 and all(isinstance(e, ast.Name) for e in tgt.elts)):
+            return None
+        kn, vn = tgt.elts[0].id, tgt.elts[1].id
+        if not (isinstance(node.key, ast.Name) and node.key.id == kn and isinstance(node.value, ast.Name) and node.value.id == vn):
+            return None
+        d = self.eval(it.func.value, env)
+        if not isinstance(d, ArrDict):
+            return None
+        kc = self.bound("k", T.Val)
+        e = Env(env.module, env, {kn: Sym("val", kc), vn: Sym("val", d.vals[kc])})
+        npc = len(self.pc)
+        conds = [self.as_bool_term(self.eval(c, e)) for c in g.ifs]
+        if len(self.pc) != npc:
+            raise Unsupported("forking condition in a filtered dict comprehension over an opaque mapping")
+        return ArrDict(z3.Lambda([kc], z3.And(d.present[kc], *conds)), d.vals)
 
     def e_GeneratorExp(self, node, env):
         from .symex import Env
